@@ -156,6 +156,13 @@ pub fn run(tier: Tier) -> Report {
             sep: "",
         },
         Family {
+            name: "char-soup-space-like-characters",
+            alpha: SIGMA_CHAR_SPACE_LIKE.to_vec(),
+            max_text: tier.pick(3, 4),
+            max_repl: 1,
+            sep: "",
+        },
+        Family {
             // literals that carry lexical errors with non-empty ranges (overflow) or positions
             name: "error-carrying-literals",
             alpha: vec!["a", ";", "99999999999", "0xFFFFFFFFF", "0x", "'", "'a", "1"],
